@@ -497,5 +497,27 @@ def ctfTRInClass (g : MG Name) (domains : List Domain) (o c : Ctf.Event) : Bool 
   | .ok (some (_, some _)) => ctfTRSoundClass g domains o c && readingExists (o ++ c)
   | _ => false
 
+/-- the conjuncts of `ctfTRSoundClass` / `ctfTRInClass` one by one (driver op `ctftr condclass`; diagnostics only):
+one world, outcomes found, outcome not condition, outcomes over distinct vertices, no self-intervention and consistent
+subscripts, no captured literal subscript, `D_*` in `ctfSoundClass`, a reading of the query exists -/
+def ctfTRClassFlags (g : MG Name) (domains : List Domain) (o c : Ctf.Event) : List Bool :=
+  match condComps g o c with
+  | .error _ => []
+  | .ok comps =>
+    let T := comps.flatten
+    [ (T.all fun a => T.all fun b => a.name != b.name || decide (a = b)),
+      OutcomesFound g o c, OutcomeNotCondition o c, decide ((o.map (·.1.name)).Nodup),
+      (o ++ c).all (fun p => !Ctf.selfIntervened p.1 && consistentIvs p.1.ivs),
+      (o ++ c).all (fun p => p.1.ivs.all fun i =>
+        !(T.any fun a => a.name == i.name) || decide (i.name ∈ eventNames c)),
+      (match line2C g o c with
+        | .error _ => false
+        | .ok (dstar, _) =>
+          match ctfTRu g domains dstar with
+          | .ok (some (_, some simplified)) =>
+            (match ctfSoundClass g (Ctf.fillEvent simplified) with | .ok b => b | .error _ => false)
+          | _ => false),
+      readingExists (o ++ c) ]
+
 end CtfTr
 end Y0
